@@ -9,19 +9,20 @@ allp = [json.loads(l) for l in open(os.path.join(ROOT, 'properties.jsonl'))]
 hooks_commits = ['6002121']
 
 LEVEL = {
- 'C01': 'Proved (Props/C01.v, C01w.v): release step in closed form; total value of a release group <= arrived coins for every group and arrival under E1\' only; exact payout, removal of exactly the paid entries, repeated withdrawal fails, withdrawal succeeds under the funding invariant; order independence with equal final states; the funding invariant (released claims <= prev_hub_balance <= hub balance) in EVERY world of every history inside the named envelope (legacy-free, no hub-signed root, underlying usei, E1\' at visited worlds). Not proved, left to monitors: arrival identity (bank - prev = coins delivered by the staking module, E2/E3).',
+ 'C01': "Proved (Props/C01.v, C01w.v, C01a.v): release step in closed form; total value of a release group <= arrived coins for every group and arrival under E1' only; exact payout, removal of exactly the paid entries, repeated withdrawal fails, withdrawal succeeds under the funding invariant; order independence with equal final states; the funding invariant (released claims <= prev_hub_balance <= hub balance) in EVERY world of every history inside the named envelope (legacy-free, no hub-signed root, underlying usei, E1' at visited worlds); ARRIVAL IDENTITY over histories (C01a): nothing completed is still in flight, the coins delivered since the last withdrawal are exactly (<= under slashing of unbonding stake) the expected coins of the matured unreleased batches = the release group, batch by batch, bank - prev >= delivered + gifts with equality on gift-free histories, hence total credited <= delivered (+ gifts) and the dust bound when nothing was slashed. Envelope carried as named hypotheses: hub signs no transaction, hub instantiated once, chain unbonding time = hub unbonding_period > 0 (E2/E3; witnesses show each is needed). Not modelled: validator-share rounding of the real staking module, EndBlocker delivery delay (E3).",
  'C02': 'Proved: bonds delegate exactly the payment to registered validators, undelegations leave the books by exactly their sum, the slashing check restores booked <= delegated; stack invariant booked + pending undelegations <= delegated + pending delegations for every message of every transaction; after any history every successful pricing transaction ends with booked <= delegated (no hypothesis); liquid balance never lowered except by WithdrawUnbonded, exactly unchanged for the three bond kinds. Exact liquid equality for convert/index update/remove only under an explicit trace condition.',
- 'C03': 'Proved at handler level for every pricing handler and branch (exact mint/burn/fee/pool movement, State query characterised, rounding in the pool favour, rejections). The effect of the emitted Mint/Burn on the supply is an explicit arithmetic link (closed by the token lemmas of C18 and the T2 monitors; transaction-level linking for bonds in Props/C04w.v when integrated).',
- 'C04': 'Proved at handler level for every pricing handler and branch: a Sound rate before implies Backed and a rate not lower after; BondRewards mints nothing. Guarded by Backed: the complement is the known finding F5 (witnessed). History-level statement is the composition with the frame lemmas; monitored on every non-slashing step.',
+ 'C03': 'Proved at handler level for every pricing handler and branch (exact mint/burn/fee/pool movement, State query characterised, rounding in the pool favour, rejections) and at TRANSACTION level for Bond, BondForStSei and both Convert transactions (Props/C04w.v: whole message tree executed, the supplies and what the State query reports in the world after the transaction); the Unbond transactions are decomposed in Props/C09w.v. The State query is a pure function of pools, supplies, open requests and delegations (Props/C04h.v frame theorem), consistent by construction with TokenInfo and CurrentBatch of the same world.',
+ 'C04': 'Proved: handler level for every pricing handler and branch (Sound rate before implies Backed and a rate not lower after; BondRewards mints nothing); transaction level for bonds and converts (C04w); and at HISTORY level over the FULL operation alphabet (Props/C04h.v): every operation that is not a slashing event, a (re-)instantiation / reset, or a transaction signed by the hub address lowers neither reported rate - arbitrary root messages to all six contracts and the stubs by arbitrary senders, failing transactions, time advances, reward accrual, gifts, stub-mode changes included; coin value of an unchanged balance never shrinks along such histories; UpdateGlobalIndex mints nothing and raises the stSei rate weakly. Guarded by SoundRates/Backed: the complement is the known finding F5 (witnessed). Wired and the E1 magnitudes are `always`-style envelope predicates on visited worlds.',
  'C05': 'Proved at handler level for all four paths: fee = min(max fee, required), zero above threshold, never negative, no overshoot (exact for three paths, +1 tight for bSei->stSei with the fix commit 078c6d5), fee code cannot fail under E1.',
  'C06': 'Proved at handler/kernel level: exact recognition (pools sum to the delegated amount), pro-rata within two units in integer form, no-op cases, the check is the first step of every pricing handler, per-batch and per-token split of unbonding losses in closed form within one unit of pro rata.',
  'C07': 'Proved: ClaimsInv in every world of every legacy-free history; unbond effect; claims grow only via registered tokens and shrink only by the owner withdrawal of a released batch; query faithfulness.',
  'C08': 'Proved: LifeInv in every world of every history; undelegation only when closing a batch after strictly more than the epoch period; release only after the unbonding period (boundary exact both ways); released entries immutable forever; bank messages only for released batches; history-level time-lock under E2.',
- 'C09': 'Proved: stub independence of all exit/bond/token/claim transactions and whole histories for arbitrary stub behaviour; the hub Unbond hook and the token Send succeed for every positive amount under the named invariants; first unbond after the epoch closes the batch. Guarded by Backed (known finding F5, witnessed). Whole-transaction composition in Props/C09w.v when integrated; additionally exercised by dry-run probes on cloned implementation worlds.',
- 'C13': 'Proved: registry removal (owner only, never the last), redelegation plan sums to the whole stake on registered targets, hub proxy 1:1, transaction decomposition and end state at any point of any history, gap delegated-booked unchanged from Books. Full composition with the appended UpdateGlobalIndex in Props/C13w.v when integrated.',
- 'C14': 'Proved: RInv preserved by all messages; claim pays exactly the whole-unit part iff >= 1; no guard hit under E1; solvency in every world of every history inside the named envelope; dust < 1 unit per update and claimed <= delivered over contract-level traces (history-level in Props/C14w.v when integrated).',
- 'C15': 'Proved at handler level: exact proportional accrual, settlement preserves accrued rewards, other holders untouched, commutation on distinct holders, split-account linearity. Relational claims are theorems about two executions of the model.',
+ 'C09': "Proved: stub independence of all exit/bond/token/claim transactions and whole histories for arbitrary stub behaviour; the hub Unbond hook and the token Send succeed for every positive amount under the named invariants; first unbond after the epoch closes the batch; the WHOLE unbond transactions of both tokens succeed (Props/C09w.v); and over HISTORIES (Props/C09h.v): in the world reached by any history whose transactions are signed by non-contract addresses, every premise of the exit theorems is discharged from reachability (clock invariant, mirror, books, token invariants, reward accrual bounds), so any holder's unbond of any positive part of its balance succeeds and every claimant with released claims worth >= 1 unit is paid exactly. Not derived (assumed at the reached world, named ExitEnv / RewardE1 / WithdrawEnv): not paused, magnitudes <= 1e18, not in the known class F5 (witnessed), unbonding period <= block time. Additionally exercised by dry-run probes on cloned implementation worlds (also after a day of idleness with failing swap/oracle).",
+ 'C13': 'Proved: registry removal (owner only, never the last), redelegation plan sums to the whole stake on registered targets, hub proxy 1:1, transaction decomposition and end state at any point of any history, gap delegated-booked unchanged from Books; the complete RemoveValidator transaction including the appended UpdateGlobalIndex (Props/C13w.v).',
+ 'C14': 'Proved: RInv preserved by all messages; claim pays exactly the whole-unit part iff >= 1; no guard hit under E1; solvency in every world of every history inside the named envelope; at history level (Props/C14w.v): stranded dust < 1 unit per effective index update and total claimed <= total delivered, with ghost counters threaded through the chain execution; whole claim transaction succeeds.',
+ 'C15': "Proved at handler level: exact proportional accrual, settlement preserves accrued rewards, other holders untouched, commutation on distinct holders, split-account linearity; at transaction level (Props/C14w.v part B): every bSei token transaction and hub bond/unbond/convert/withdraw transaction leaves every holder's accrued reward unchanged, tokens acquired after an update earn nothing from it. Relational claims are theorems about two executions of the model.",
  'C16': 'Proved: Mirror in every visited world of every history inside the named envelope (fresh ledgers or wired; no root signed by the bSei contract; no re-instantiation over live holders), via a stack invariant over pending Increase/DecreaseBalance messages; per-handler message/ledger deltas.',
+ 'C18': "Proved (Props/C18.v, C18w.v): balances sum to the total supply in every world of every history, for every instantiate message (repeated initial addresses rejected - former finding F4, fixed); transfers and sends conserve supply; only the minter mints, and the minter of both tokens IS the hub in every world of every history whose token instantiations name it (no contract ever emits UpdateMinter), so every executed Mint anywhere in any transaction was sent by the hub; bSei Burn only by the hub; allowance accounting exact per message and cumulative over any history (stored + spent + lowered = granted since instantiation; every spend found an unexpired sufficient entry); every executed stSei Burn/BurnFrom and bSei BurnFrom is followed in the same transaction by the hub's CheckSlashing leg, which runs exactly the hub's slashing synchronisation.",
  'C19': 'Proved at transaction level: under wiring, stub, E1 hypotheses and outside the known class F2 the UpdateGlobalIndex transaction succeeds with the stated end state (all rewards withdrawn, dispatcher empty, keeper fee exact, stSei pool and delegations grown by the re-bonded amount, everything else unchanged). F2 is a known finding (three witnesses).',
 }
 
